@@ -109,6 +109,10 @@ fn well_typed_tval(c: &mut Choices, key: &[u8], fam: FamId) -> Option<TVal> {
             _ => TVal::U64(gen_port(c) as u64),
         },
         b"id" => TVal::Str("v4".into()),
+        b"client" => {
+            let n = c.below(6);
+            TVal::StrList((0..n).map(|_| if c.bool() { "x".to_string() } else { gen_string(c) }).collect())
+        }
         b"ip" => TVal::Bytes(gen_ip4(c).to_vec()),
         b"ip6" => TVal::Bytes(gen_ip6(c).to_vec()),
         b"secp256k1" => {
@@ -139,11 +143,11 @@ pub fn gen_tval(c: &mut Choices, key: &[u8], fam: FamId) -> TVal {
         3 => TVal::U64(gen_seq(c)),
         4 => TVal::Str(gen_string(c)),
         5 => {
-            let n = c.below(4);
+            let n = c.below(6);
             TVal::StrList((0..n).map(|_| gen_string(c)).collect())
         }
         6 => {
-            let n = c.below(4);
+            let n = c.below(6);
             TVal::BytesList((0..n).map(|_| gen_str_value(c)).collect())
         }
         7 => {
